@@ -307,7 +307,7 @@ def single_edit_cases(scheme, seed):
         for v in values:
             cfg = copy.deepcopy(base)
             cfg[name] = v
-            for lens in ([1], [2, 5, 1, 8], [12, 12, 3]):
+            for lens in ([1], [2, 5, 1, 8], [12, 12, 3]) + (([70, 3], [130]) if scheme == "CJJ14.Pi2Lev" else ()):
                 yield {"scheme": scheme, "cfg": cfg, "edits": [[name, v]], "shape": {"lens": lens, "id_mode": "be", "id_seed": 5},
                        "seed": seed, "scan_n": name != "param_n"}
 
